@@ -23,6 +23,12 @@ assert subprocess.run(['git', '-C', '/repo', 'status', '--porcelain', '-uno'], c
 bad = 0
 for prop, diff in items:
     r = subprocess.run(['git', '-C', '/repo', 'apply', diff], capture_output=True, text=True)
+    if r.returncode:      # context drifted (later fix: commits touched neighbouring lines): retry leniently
+        r = subprocess.run(['git', '-C', '/repo', 'apply', '-C1', '--recount', diff], capture_output=True, text=True)
+    if r.returncode:
+        r = subprocess.run(['patch', '-p1', '--fuzz=3', '-s', '-N', '--no-backup-if-mismatch', '-r', '-', '-i', diff], cwd='/repo', capture_output=True, text=True)
+        if r.returncode:
+            subprocess.run(['git', '-C', '/repo', 'checkout', '--', '.'])
     if r.returncode:
         print(f'SKIP  {prop} {os.path.relpath(diff, V)}: does not apply: {r.stderr.strip()[:200]}')
         bad += 1
